@@ -58,6 +58,9 @@ uint8_t *ll_skinny_calloc(uint64_t size, uint8_t *base_ptr)   /* contract model 
 /* ---------------- operations on an object of the selected back end ---------------- */
 typedef struct { const void *vtable; void *ctx; } obj_t;
 uint8_t sym_key[48], sym_cnt[BLK], sym_tw[BLK], sym_data[2 * B + 3], sym_handle[sizeof(obj_t)];
+#ifdef OB_WIPE
+uint8_t sym_fill[800];
+#endif
 
 static int op_init(obj_t *o)
 {
@@ -191,7 +194,7 @@ void harness(void)
     for (int i = 0; i < MAXBLK; i++) ASSUME(sym_allocfail[i] == 0);
     memset(&o, 0, sizeof o);
     CHECK(op_init(&o) == 1, "init succeeds");
-    { uint8_t nd[CTX_SIZE]; 
+    { static uint8_t nd[CTX_SIZE]; SYM_U8A(sym_fill); memcpy(nd, sym_fill, CTX_SIZE);
 #if VEC
       void *base = *(void **)((uint8_t *)o.ctx + V_BASE);
       memcpy(o.ctx, nd, CTX_SIZE);
@@ -311,6 +314,10 @@ void harness(void)
     r = op_encrypt(&o, out, 0, B + 3);                                                /* null input */
 #elif ERRCASE == 11
     r = op_set_counter(&o, sym_cnt, 0xFFFFFFFFu);                                     /* counter length far out of range */
+#elif ERRCASE == 12
+    r = op_set_tweak(&o, 0, 0);                                                       /* null tweak does not excuse a bad length */
+#elif ERRCASE == 13
+    r = op_set_tweak(&o, 0, BLK + 1);
 #endif
     CHECK(r == 0, "an invalid call returns 0");
     CHECK_BYTES_EQ(ctx, ctxb, CTX_SIZE, "an invalid call leaves the context byte-identical");
